@@ -1,3 +1,4 @@
+#![cfg(all(feature = "builtins", feature = "macros", feature = "multi_template", feature = "adjacent_loop_items", feature = "fuel", feature = "loop_controls"))]
 // Kani harnesses for minijinja/src/vm/context.rs (included under cfg(kani)).
 #![allow(unused_imports)]
 use super::*;
@@ -50,6 +51,30 @@ fn c11_depth_guard_inductive_step() {
     kani::cover!(r.is_err() && delta == 4);
     kani::cover!(requested > 500);
     core::mem::forget((r, ctx));
+}
+
+// @verif props=C11 tier=quick cap=600 group=core fns=Environment::set_recursion_limit,Context::new,Context::depth
+/// The configured limit can never exceed 500 (the value the native-stack budget was chosen for): for ANY
+/// requested limit and ANY sequence of two set_recursion_limit calls the stored limit is min(last request, 500),
+/// and a fresh context starts at depth 0 with exactly that limit.
+#[kani::proof]
+#[kani::unwind(4)]
+#[kani::stub(std::hash::RandomState::new, crate::verif_common::random_state_stub)]
+fn c11_recursion_limit_is_clamped() {
+    let r1: usize = kani::any();
+    let r2: usize = kani::any();
+    let mut env = Environment::empty();
+    assert!(env.recursion_limit() == 500);
+    env.set_recursion_limit(r1);
+    env.set_recursion_limit(r2);
+    let env: &'static Environment<'static> = Box::leak(Box::new(env));
+    assert!(env.recursion_limit() == if r2 > 500 { 500 } else { r2 });
+    let ctx = Context::new(env);
+    assert!(ctx.depth() == 0);
+    assert!(ctx.recursion_limit == env.recursion_limit());
+    kani::cover!(r2 > 500);
+    kani::cover!(r2 == 0);
+    core::mem::forget(ctx);
 }
 
 #[cfg(test)]
